@@ -2,6 +2,7 @@ package main
 
 import (
 	"fmt"
+	"github.com/flosch/pongo2/v6"
 	"runtime"
 	"sync"
 	"time"
@@ -50,6 +51,33 @@ func c05RaceOnly(c *C) {
 	c.AddExtra("concurrent_executions_observed", int64(k*iters))
 	c.Cover("race_only_nondeterministic_program")
 	c.Nontrivial("raceonly:" + main)
+}
+
+// c05FirstUse: the first use of every registered filter and of a template over most tags happens on 16 goroutines at
+// once in every (race-detector) worker process: whatever the engine builds lazily on first use is built under contention.
+func c05FirstUse() {
+	c01Init()
+	samples := []any{"abc <b>x</b> 1.5 é\n", 3, 2.5, []string{"b", "a"}, nil}
+	start := make(chan struct{})
+	var wg sync.WaitGroup
+	src := "{% for i in l %}{% cycle 1 2 %}{% ifchanged i %}c{% endifchanged %}{{ i|upper|escapejs|urlencode }}{% endfor %}{% with a=1 %}{{ a|add:1|floatformat:2 }}{% endwith %}{% macro m(x) %}{{ x|title }}{% endmacro %}{{ m(\"q\") }}{% filter lower|capfirst %}F{% endfilter %}{% spaceless %}<a> <b>{% endspaceless %}{% widthratio 1 2 3 %}{% firstof 0 \"x\" %}{% templatetag openblock %}{% lorem 2 w %}{% now \"2006\" fake %}{% autoescape off %}{{ \"<\"|safe }}{% endautoescape %}{% if 1 in l and not 0 %}y{% endif %}{{ \"a\\\"b\" }}"
+	for g := 0; g < 16; g++ {
+		wg.Add(1)
+		go func(g int) {
+			defer wg.Done()
+			defer func() { recover() }()
+			<-start
+			for _, f := range c01Filters {
+				pongo2.ApplyFilter(f, pongo2.AsValue(samples[(g+len(f))%len(samples)]), pongo2.AsValue(2))
+			}
+			set, _ := newSet(emptySetFiles)
+			if tpl, err := set.FromString(src); err == nil {
+				tpl.Execute(pongo2.Context{"l": []int{1, 1, 2}})
+			}
+		}(g)
+	}
+	close(start)
+	wg.Wait()
 }
 
 func c05Run(c *C) {
@@ -215,7 +243,7 @@ func init() {
 	register(&Prop{
 		ID:   "C05",
 		Race: true,
-		Init: c01Init,
+		Init: c05FirstUse,
 		Cases: func(tier string) int {
 			if tier == "thorough" {
 				return 6000
